@@ -5,6 +5,7 @@ for id in "$@"; do
   for d in /tmp/seed3/$id-out/m*; do
     [ -f "$d/patch.diff" ] || continue
     k=$(basename $d)
+    [ -f "/verif/seeded/$id-r3$k/meta.json" ] && continue
     needs=$(grep -i -A3 "need" "$d/README.md" | head -4 | tr '\n' ' ' | cut -c1-400)
     python3 /verif/tools/seedconfirm.py "$d" "$id-r3$k" --prop $id --check $id --needs "$needs" 2>&1 | tail -3
   done
